@@ -244,6 +244,13 @@ class StmtMixin:
 
     def ex_Assert(self, s, fr):
         c = self.truth(self.ev(s.test, fr))
+        cc = getattr(self, 'cur_contract', None)
+        if cc is not None and 'AssertionError' in (cc.raises or {}) and fr.fs is not None and fr.contract is cc:
+            # the contract of the function under verification lists AssertionError as a possible outcome: a failing assert is a
+            # raising path of that function, not a proof obligation
+            if not (c if isinstance(c, bool) else self.path.branch(c)):
+                raise PyRaise(AssertionError, (), s)
+            return
         self.oblige('safety:assert', c, s)
         self.path.assume(c)
 
